@@ -478,7 +478,7 @@ func HasLazyField(md protoreflect.MessageDescriptor) bool {
 
 // Corruptions of a submessage payload.
 var corruptKinds = []string{"truncated-varint", "length-overrun", "bad-wiretype", "field-zero", "stray-endgroup", "truncate-tail", "bad-utf8", "unterminated-group",
-	"packed-misaligned", "packed-truncated-varint", "overlong-varint", "bad-utf8-in-container", "group-end-mismatch", "field-number-overflow", "nested-bad-length"}
+	"packed-misaligned", "packed-truncated-varint", "overlong-varint", "bad-utf8-in-container", "group-end-mismatch", "field-number-overflow", "nested-bad-length", "varint-overflow-bits", "packed-varint-overflow-bits"}
 
 // findField returns the first field of md that satisfies ok.
 func findField(md protoreflect.MessageDescriptor, ok func(protoreflect.FieldDescriptor) bool) protoreflect.FieldDescriptor {
@@ -650,6 +650,38 @@ func Corrupt(r *sim.Rng, m *WMsg) (kind string, inLazy bool, ok bool) {
 		}
 		payload = protowire.AppendTag(payload, num, protowire.StartGroupType)
 		payload = protowire.AppendTag(payload, num+1, protowire.EndGroupType)
+	case "varint-overflow-bits", "packed-varint-overflow-bits":
+		// ten bytes whose last byte carries bits beyond 64: an overflow, not merely a long encoding
+		over := []byte{0xff, 0xff, 0xff, 0xff, 0xff, 0xff, 0xff, 0xff, 0xff, byte(0x02 + r.Intn(0x7e))}
+		isVarintKind := func(fd protoreflect.FieldDescriptor) bool {
+			switch fd.Kind() {
+			case protoreflect.Int32Kind, protoreflect.Int64Kind, protoreflect.Uint32Kind, protoreflect.Uint64Kind, protoreflect.Sint32Kind, protoreflect.Sint64Kind, protoreflect.BoolKind, protoreflect.EnumKind:
+				return true
+			}
+			return false
+		}
+		if kind == "packed-varint-overflow-bits" {
+			if fd := findField(c.nd.Sub.MD, func(fd protoreflect.FieldDescriptor) bool { return fd.IsList() && isVarintKind(fd) }); fd != nil {
+				var pk []byte
+				if r.Bool() {
+					pk = append(pk, 0x01)
+				}
+				pk = append(pk, over...)
+				if r.Bool() {
+					pk = append(pk, 0x03)
+				}
+				payload = protowire.AppendTag(payload, fd.Number(), protowire.BytesType)
+				payload = protowire.AppendBytes(payload, pk)
+				break
+			}
+			kind = "varint-overflow-bits"
+		}
+		num := protowire.Number(1)
+		if fd := findField(c.nd.Sub.MD, func(fd protoreflect.FieldDescriptor) bool { return !fd.IsMap() && isVarintKind(fd) }); fd != nil {
+			num = fd.Number()
+		}
+		payload = protowire.AppendTag(payload, num, protowire.VarintType)
+		payload = append(payload, over...)
 	case "field-number-overflow":
 		payload = protowire.AppendVarint(payload, uint64(1<<29)<<3|uint64(protowire.VarintType))
 		payload = protowire.AppendVarint(payload, 1)
